@@ -15,4 +15,5 @@ import (
 	_ "verifharness/props/c12"
 	_ "verifharness/props/c13"
 	_ "verifharness/props/c14"
+	_ "verifharness/props/c16"
 )
